@@ -34,6 +34,11 @@ def main():
     log = []
     wt = tempfile.mkdtemp(prefix="seedv-", dir="/tmp")
     os.rmdir(wt)
+    prev = {}
+    try:
+        prev = json.load(open(os.path.join(dst, "meta.json")))
+    except Exception:
+        pass
     meta = dict(property=prop, id=sid, repo_head=subprocess.check_output(["git", "-C", REPO, "rev-parse", "--short", "HEAD"], text=True).strip())
     try:
         subprocess.check_call(["git", "-C", REPO, "worktree", "add", "-q", "--detach", wt, "HEAD"])
@@ -58,7 +63,11 @@ def main():
         meta["demo_passes_without_change"] = rc2 == 0
         os.remove(os.path.join(wt, place))
         sh(["git", "apply", patch], wt)
+        if nosuite and "existing_suite_passes_with_change" in prev:
+            meta["existing_suite_passes_with_change"] = prev["existing_suite_passes_with_change"]
+            meta["suite_confirmed_at_repo_head"] = prev.get("suite_confirmed_at_repo_head", prev.get("repo_head"))
         if not nosuite:
+            meta["suite_confirmed_at_repo_head"] = meta["repo_head"]
             t0 = time.time()
             rc, out = sh("go test -vet=off -count=1 -timeout 25m ./...", wt, timeout=2400)
             fails = [l for l in out.splitlines() if l.startswith("FAIL") or l.startswith("--- FAIL") or l.startswith("panic:")]
